@@ -2,6 +2,7 @@
 //! verif-harness: runs the real aiken/uplc code next to the Lean models.
 //!   verif-harness <sub-command> [--seed N] [--tier quick|thorough] [--out file] [--replay file]
 mod c15;
+mod c20_text;
 mod driver;
 mod prng;
 mod report;
@@ -13,6 +14,12 @@ pub struct Ctx {
     pub replay: Option<String>,
 }
 
+/// extra CLI argument `--name <usize>` of a sub-command
+pub fn arg_usize(name: &str, default: usize) -> usize {
+    let args: Vec<String> = std::env::args().collect();
+    args.iter().position(|a| a == name).and_then(|i| args.get(i + 1)).and_then(|v| v.parse().ok()).unwrap_or(default)
+}
+
 fn main() {
     let args: Vec<String> = std::env::args().collect();
     if args.len() < 2 {
@@ -20,6 +27,9 @@ fn main() {
         std::process::exit(2);
     }
     let sub = args[1].clone();
+    if sub == "c20-uplc-text-probe" {
+        c20_text::probe();
+    }
     let mut ctx = Ctx { seed: 1, thorough: false, replay: None };
     let mut out: Option<String> = None;
     let mut i = 2;
@@ -41,6 +51,10 @@ fn main() {
                 ctx.replay = Some(args[i + 1].clone());
                 i += 1;
             }
+            other if other.starts_with("--") => {
+                // extra per-sub-command argument `--name value` (read with `arg_usize`)
+                i += 1;
+            }
             other => panic!("unknown argument {other}"),
         }
         i += 1;
@@ -49,6 +63,8 @@ fn main() {
     std::panic::set_hook(Box::new(|_| {}));
     let rep = match sub.as_str() {
         "c15-names" => c15::names(&ctx),
+        "c15-text" => c15::text(&ctx),
+        "c20-uplc-text" => c20_text::run(&ctx),
         other => {
             eprintln!("unknown sub-command {other}");
             std::process::exit(2);
